@@ -679,6 +679,66 @@ def _extra_job(job):
                                 report("verdict", dict(desc, tr=tr), f"kw-only f{desc['sig']} after a {warm} call on {P} ({w}): {Q} under {tr} -> {r}, eagerly -> {e[0]}")
                         if len(samples) < 1 and e[0] == "ok" and w == "ok" and P != Q:
                             samples.append(dict(kind="kwonly_sequence", fn=f"f{desc['sig']}", warm=warm, P=desc["P"], Q=desc["Q"], eager=e, traced=t))
+        # (iii) isinstance checks made by the BODY on intermediate values (temporaries are freed eagerly
+        # and kept alive while tracing), and (iv) Python scalars / weakly typed values
+        if job.get("collide", True):
+            seen = []
+            src = (
+                "def f(x0):\n"
+                "    out = []\n"
+                "    out.append(isinstance(x0 * 2, A_a))\n"
+                "    out.append(isinstance(jnp.concatenate([x0, x0]), A_a))\n"
+                "    out.append(isinstance(x0 + 1, A_a))\n"
+                "    out.append(isinstance(jnp.pad(x0, 1), A_a))\n"
+                "    out.append(isinstance((x0 * 3).astype('int32'), A_a))\n"
+                "    SEEN.append(out)\n"
+                "    return jnp.zeros(()) + 0 * jnp.sum(x0)\n"
+            )
+            ns = {"jnp": jnp, "A_a": A("a"), "SEEN": seen}
+            exec(src, ns)
+            fb = ns["f"]
+            fb.__annotations__ = {"x0": A("a")}
+            Fb = jt.jaxtyped(typechecker=E["tcs"][tc])(fb)
+            for sh in [(1,), (2,), (3,)]:
+                desc = dict(family="bodychecks", tc=tc, sig="(x0:a){isinstance on intermediates}", shapes=[list(sh)])
+                del seen[:]
+                ev = []
+                for h in FILLS:
+                    outcome(lambda: Fb(fill(sh, h)))
+                    ev.append(seen[-1] if seen else None)
+                st["eager"] += len(FILLS)
+                if any(x != ev[0] for x in ev):
+                    report("filling", desc, f"body-level isinstance results differ between fillings: {ev}")
+                for tr in X_TRANSFORMS:
+                    del seen[:]
+                    r = traced(Fb, lambda F, a: F(a), (sh,), tr)
+                    st["evaluations"] += 1
+                    tv = seen[-1] if seen else None
+                    if tv != ev[0] or "tracer-forced" in r:
+                        report("verdict", dict(desc, tr=tr), f"isinstance checks made by the body of f on intermediates, shape {sh}, under {tr}: traced -> {tv} ({r}), eagerly -> {ev[0]}")
+            for cat in ("Float16", "Float32", "Float64", "Int32", "Float"):
+                ann = getattr(jt, cat)[jax.Array, ""]
+                ns = {"jnp": jnp}
+                exec("def f(x):\n    return jnp.zeros(()) + 0 * x\n", ns)
+                fw = ns["f"]
+                fw.__annotations__ = {"x": ann}
+                Fw = jt.jaxtyped(typechecker=E["tcs"][tc])(fw)
+                for val in (0.5, 1):
+                    desc = dict(family="weak", tc=tc, sig=f"(x:{cat}[Array,''])", shapes=[repr(val)])
+                    weak = jnp.asarray(val)
+                    strong = jnp.full((), val, dtype=weak.dtype)
+                    e = [outcome(lambda: Fw(weak)), outcome(lambda: Fw(strong))]
+                    st["eager"] += 2
+                    if e[0] != e[1]:
+                        report("filling", desc, f"{cat}[Array,''] on two arrays of identical type, shape and dtype ({weak.dtype}) built from {val!r}: weakly typed -> {e[0]}, strongly typed -> {e[1]}")
+                    trs = {"eval_shape": lambda: jax.eval_shape(Fw, val), "jit": lambda: jax.make_jaxpr(jax.jit(Fw))(val)}
+                    if isinstance(val, float):
+                        trs["grad"] = lambda: jax.eval_shape(jax.grad(lambda x: jnp.sum(Fw(x))), val)
+                    for tr, th in trs.items():
+                        r = outcome(th)
+                        st["evaluations"] += 1
+                        if r != e[1] or "tracer-forced" in r:
+                            report("verdict", dict(desc, tr=tr), f"{cat}[Array,''] called with the Python scalar {val!r} under {tr}: traced -> {r}, eager on a {weak.dtype}[] array -> {e[1]}")
         # (ii) parameter names that are also axis names of symbolic expressions (unbound as axes)
         collide = [
             ("def f(k, y):\n    return jnp.zeros(()) + 0 * (jnp.sum(k) + jnp.sum(y))\n", {"k": A("n"), "y": A("k+1")}, "(k:n,y:k+1)"),
